@@ -797,6 +797,33 @@ impl<'a> Collector<'a> {
         }
       }
     }
+    // abstract type: a type argument replaced by the name of an interface of this module. An interface is not a
+    // type a value can have (spec.md: type arguments are non-abstract types), whatever the parameter's bound.
+    let mut ifaces: Vec<PStr> = self
+      .classes
+      .iter()
+      .filter(|((m, _), t)| *m == self.mref && matches!(t, Toplevel::Interface(i) if i.type_parameters.is_none()))
+      .map(|((_, n), _)| *n)
+      .collect();
+    ifaces.sort();
+    if let Some(iface) = ifaces.first() {
+      let name = iface.as_str(self.heap).to_string();
+      for arg in &ta.arguments {
+        let l = arg.location();
+        if let (Some((a0, b0)), Some((s0, e0))) = (self.range(&l, "annot"), self.text.span(&l)) {
+          if self.text.s[s0..e0] != name {
+            self.push(
+              "abstract-type",
+              if on_call { "targ-call" } else { "targ-annot" },
+              s0,
+              e0,
+              name.clone(),
+              vec![Splice { at: a0, del: b0 - a0, ins: vec![format!("TId({name})("), "NoTargs".into(), ")".into()] }],
+            );
+          }
+        }
+      }
+    }
     // bound violation: a type argument for a bounded parameter replaced by Str (implements nothing)
     for (i, b) in bounds.iter().enumerate() {
       let Some(b) = b else { continue };
